@@ -160,6 +160,20 @@ CHECKS = {
               'alarm needs every capable solver to deviate the same way, or 10x margin with one solver), HiGHS/SCIP/Gurobi on 3-variable MILPs. Bounded: sum '
               'beta <= 16/32 with <= 4/5 weights, p/q <= 8/12; the 3-variable MILP family is a seeded pseudo-random subtree (2-variable/1-row family exhaustive); '
               'root-det caller not covered (no SDP solver).')),
+    'C14': dict(
+        level='model_checking',
+        technique='TLC generator + validator on DualValues.tla: statement-by-statement user models, transcribed index/ciarray map, certificate identities decided by TLC on the dual values returned by three interfaces',
+        design_ref='DESIGN.md 5/C14',
+        text=('DualValues.tla: TLC enumerates user models statement by statement (interleavings of 1-2 row <=/>=/== array constraints, bound statements on the '
+              'array and on slices with one lower and one upper bound per entry, abs/1-norm/inf-norm auxiliary-row generators, explicit do_math, min/max, ro.Model '
+              'and lp.Model) and checks on the transcribed index/ciarray map that each constraint is given exactly its own rows (SliceIsOwnRows, ShapesMatch) and '
+              'that the sign convention of the property is an LP duality (ConventionIsWeakDuality); a stratified sample of the boxed, lattice-feasible models is '
+              'written through the API (vector, split and 2-D layouts; fresh model per interface or one model re-solved), solved by scipy/HiGHS, ECOS and Gurobi, '
+              'dual() is read on every object returned by st(), and the user data with duals/value/solution scaled 1e4 goes back to TLC: stationarity c = sum pi a + '
+              'sum rho e, dual objective = v*, signs by direction of optimisation, shapes.'),
+        note=('Auxiliary constraints are generated loose on the whole box (assumption exported per case), so the API-exposed multipliers form the complete certificate. '
+              'Identities, not values, are compared (25-30% of validated vertices are degenerate). OR-Tools returns None + warning (recorded, conformant). Violation only '
+              'beyond 10x (solver tolerance + rounding bound). Known finding: dual() of 2-D constraints/bounds is flattened.')),
     'C16': dict(
         level='model_checking',
         technique='TLC model checking of LpFormat.tla (program generator + writer transcription + ideal token/cell acceptors) + replay of generated programs into rsome.lp/socp/ro + batch TLC validation of the lexed lp_export()/show() streams + read-back of to_lp() files with gurobipy',
